@@ -3,6 +3,10 @@ package props
 import (
 	"fmt"
 	"strings"
+	"time"
+
+	biscuit "github.com/biscuit-auth/biscuit-go/v2"
+	"github.com/biscuit-auth/biscuit-go/v2/datalog"
 
 	"verif/internal/hx"
 	"verif/internal/refdl"
@@ -22,12 +26,22 @@ var c12Panel = []refdl.Rule{
 }
 
 // c12Observe: Authorize n times on one authorizer, Query panel after each.
+// c12MaxFacts, when positive, is the fact limit the next observations run with (per worker).
 func c12Observe(w *sup.W, s refdl.Scenario, dup int, repeats int) (string, bool) {
+	maxFacts, _ := w.Local["c12MaxFacts"].(int)
+	return c12ObserveLimit(w, s, dup, repeats, maxFacts)
+}
+
+func c12ObserveLimit(w *sup.W, s refdl.Scenario, dup int, repeats int, maxFacts int) (string, bool) {
 	tok, err := cachedToken(w, s.Authority, s.Blocks)
 	if err != nil {
 		return "build-error: " + err.Error(), false
 	}
-	a, err := hx.Authorizer(tok, refdl.Block{}, nil)
+	opts := []biscuit.AuthorizerOption{hx.LongLimits}
+	if maxFacts > 0 {
+		opts = []biscuit.AuthorizerOption{biscuit.WithWorldOptions(datalog.WithMaxDuration(time.Hour), datalog.WithMaxFacts(maxFacts))}
+	}
+	a, err := hx.Authorizer(tok, refdl.Block{}, nil, opts...)
 	if err != nil {
 		return "authorizer-error", false
 	}
@@ -389,6 +403,30 @@ func init() {
 					if !check("duplicate-fact", base, k) {
 						return
 					}
+				}
+				// under the tightest fact limit that lets the canonical presentation through, repeating
+				// Authorize and duplicating a fact still change nothing (they add no fact)
+				for mf := 1; mf <= 40; mf++ {
+					one, ok := c12ObserveLimit(w, base, -1, 1, mf)
+					if !ok || strings.HasPrefix(one, "limit") {
+						continue
+					}
+					rep, _ := c12ObserveLimit(w, base, -1, 4, mf)
+					for n, r := range strings.Split(rep, " || ") {
+						w.Class("variant")
+						if r != one {
+							w.Violate("C12:repeated-authorize-under-a-tight-fact-limit", fmt.Sprintf("%s with WithMaxFacts(%d)", base.String(), mf), fmt.Sprintf("call %d: %s", n+1, r), "call 1: "+one)
+							return
+						}
+					}
+					for k := range base.Auth.Facts {
+						w.Class("variant")
+						if got, _ := c12ObserveLimit(w, base, k, 1, mf); got != one {
+							w.Violate("C12:duplicate-fact-under-a-tight-fact-limit", fmt.Sprintf("%s with WithMaxFacts(%d), authorizer fact %d added twice", base.String(), mf, k), got, one)
+							return
+						}
+					}
+					break
 				}
 				w.Class("base:" + strings.SplitN(rounds[0], " ", 2)[0])
 				cls := strings.SplitN(rounds[0], " ", 2)[0]
